@@ -1,11 +1,16 @@
 """C06 — Parallels HDS (v1/v2) and plain images: every byte range reads as the guest-visible content."""
 from __future__ import annotations
 
+import os
+import shutil
 import struct
+import tempfile
+import uuid
 
 from harness import core
 from harness.core import Z, zpairs
-from harness.readers import ReaderSuite, gen_requests
+from harness.main import Finding, Suite
+from harness.readers import ReaderSuite, call, gen_requests, outcome_of
 
 PROPERTY = "C06"
 PROPS_FILE = "Props/C06.v"
@@ -162,3 +167,188 @@ class HdsSuite(ReaderSuite):
 
 
 SUITES = {"hds": HdsSuite()}
+
+
+# ----------------------------------------------------------------------------- Parallels .hdd split over several storages
+def gen_hds_layers(rng, depth, nsect):
+    size = nsect * 512
+    layers = []
+    for d in range(depth):
+        ms = rng.pick([1, 2, 8])
+        ver = rng.pick([1, 2])
+        cs = ms * 512
+        nc = (size + cs - 1) // cs
+        hdr = (64 + 4 * nc + cs - 1) // cs
+        slots = list(range(nc))
+        rng.shuffle(slots)
+        mode = rng.pick(["rand", "alt", "sparse", "dense"])
+        bat = []
+        for b in range(nc):
+            hold = {"rand": rng.chance(0.5), "alt": (b + d) % 2 == 0, "sparse": rng.chance(0.2), "dense": rng.chance(0.9)}[mode]
+            pos = hdr + slots[b]
+            bat.append((pos * ms if ver == 1 else pos) if hold else 0)
+        layers.append({"kind": f"v{ver}", "version": ver, "m_sectors": ms, "size": size, "bat": bat,
+                       "first_block": hdr * ms, "file_size": (hdr + nc) * cs, "salt": rng.randrange(1 << 30)})
+    return layers
+
+
+class HddSplit(Suite):
+    """A .hdd directory whose disk is split over 2..4 storages, each storage with its own snapshot chain of expanding
+    (Compressed) images, optionally a Plain base.  Every storage's chain stands alone: a cluster absent from every layer
+    of ITS chain reads as zeros whatever the neighbouring storages hold.  Implementation vs the overlay intent computed
+    sector by sector (topmost layer of the storage's own chain that holds the cluster, else zero), concatenated in
+    storage order; the per-storage chain and the StorageStream walk are the Coq theorems C07_hds_chain and
+    C10_storage_read_correct."""
+    name = "hdd_split"
+    per_case_timeout = 60.0
+
+    def generate(self, rng, tier):
+        n = 120 if tier == "thorough" else 14
+        out = []
+        for _ in range(n):
+            depth = rng.randint(1, 3)
+            nst = rng.randint(2, 4)
+            guids = [rng.getrandbits(128) | 1 for _ in range(depth)]
+            explicit_top = rng.chance(0.6)
+            if not explicit_top:
+                guids[0] = 0x5fbaabe3695840ff92a7860e329aab41
+            storages = []
+            first_dense = rng.chance(0.6)
+            for k in range(nst):
+                nsect = rng.randint(4, 48)
+                layers = gen_hds_layers(rng, depth, nsect)
+                if k == 0 and first_dense:
+                    for l in layers[:1]:            # the first storage holds data nearly everywhere
+                        l2 = gen_hds_layers(rng, 1, nsect)[0]
+                        while sum(1 for e in l2["bat"] if e) * 10 < len(l2["bat"]) * 7:
+                            l2 = gen_hds_layers(rng, 1, nsect)[0]
+                        l.update(l2)
+                storages.append({"nsect": nsect, "layers": layers, "plain_base": rng.chance(0.2),
+                                 "image_order": rng.sample(range(depth), depth)})
+            total = sum(st["nsect"] for st in storages)
+            bounds, acc = [], 0
+            for st in storages:
+                acc += st["nsect"]
+                bounds.append(acc)
+            reqs = [[0, total * 512]]
+            for _ in range(6):
+                b = rng.pick(bounds)
+                a = max(0, min(total * 512 - 1, b * 512 - rng.randint(0, 6000))) if rng.chance(0.7) else rng.randrange(total * 512)
+                reqs.append([a, rng.randint(1, min(total * 512 - a, 12000))])
+            out.append({"storages": storages, "guids": guids, "explicit_top": explicit_top, "total": total,
+                        "storage_order": rng.sample(range(nst), nst), "reqs": reqs})
+        return out
+
+    @staticmethod
+    def _files(st):
+        files = [SUITES["hds"].build_files(l)["file"] for l in st["layers"]]
+        if st["plain_base"]:
+            files[-1] = core.SparseFile(st["nsect"] * 512, {}, salt=st["layers"][-1]["salt"] ^ 0x77)
+        return files
+
+    def expected(self, case):
+        out = []
+        for st in case["storages"]:
+            files = self._files(st)
+            n = len(files)
+            for s in range(st["nsect"]):
+                for i, l in enumerate(st["layers"]):
+                    if st["plain_base"] and i == n - 1:
+                        out.append(files[i].content(s * 512, 512))
+                        break
+                    ms = l["m_sectors"]
+                    e = l["bat"][s // ms]
+                    if e:
+                        sec = (e if l["version"] == 1 else e * ms) + s % ms
+                        out.append(files[i].content(sec * 512, 512))
+                        break
+                else:
+                    out.append(b"\x00" * 512)
+        return b"".join(out)
+
+    def impl(self, case):
+        from pathlib import Path
+        from dissect.hypervisor.disk.hdd import HDD
+        tmp = tempfile.mkdtemp(prefix="verif_c06s_")
+        try:
+            d = os.path.join(tmp, "disk.hdd")
+            os.makedirs(d)
+            g = lambda v: "{" + str(uuid.UUID(int=v)) + "}"  # noqa: E731
+            depth = len(case["guids"])
+            blocks, start = {}, 0
+            for k, st in enumerate(case["storages"]):
+                files = self._files(st)
+                images = []
+                for i, fh in enumerate(files):
+                    fn = f"disk.hdd.{k}.{g(case['guids'][i])}.hds"
+                    with open(os.path.join(d, fn), "wb") as w:
+                        w.write(fh.content(0, fh.size))
+                    typ = "Plain" if (st["plain_base"] and i == depth - 1) else "Compressed"
+                    images.append(f"<Image><GUID>{g(case['guids'][i])}</GUID><Type>{typ}</Type><File>{fn}</File></Image>")
+                images = "".join(images[i] for i in st["image_order"])
+                blocks[k] = (f"<Storage><Start>{start}</Start><End>{start + st['nsect']}</End><Blocksize>8</Blocksize>"
+                             f"{images}</Storage>")
+                start += st["nsect"]
+            shots = []
+            for i in range(depth):
+                parent = g(case["guids"][i + 1]) if i + 1 < depth else "{00000000-0000-0000-0000-000000000000}"
+                shots.append(f"<Shot><GUID>{g(case['guids'][i])}</GUID><ParentGUID>{parent}</ParentGUID></Shot>")
+            top = f"<TopGUID>{g(case['guids'][0])}</TopGUID>" if case["explicit_top"] else ""
+            xml = ("<?xml version='1.0' encoding='UTF-8'?>\n<Parallels_disk_image Version=\"1.0\">"
+                   f"<Disk_Parameters><Disk_size>{case['total']}</Disk_size></Disk_Parameters><StorageData>"
+                   + "".join(blocks[k] for k in case["storage_order"]) +
+                   f"</StorageData><Snapshots>{top}{''.join(shots)}</Snapshots></Parallels_disk_image>")
+            with open(os.path.join(d, "DiskDescriptor.xml"), "w") as w:
+                w.write(xml)
+            out = {"open": None, "reqs": []}
+            try:
+                stream = HDD(Path(d)).open()
+            except Exception as e:  # noqa: BLE001
+                out["open"] = {"outcome": "exc", "exc": type(e).__name__, "msg": str(e)[:200]}
+                return out
+            out["size"] = int(stream.size)
+            for a, b in case["reqs"]:
+                def f(a=a, b=b):
+                    stream.seek(a)
+                    return stream.read(b)
+                out["reqs"].append(call(f))
+            return out
+        finally:
+            shutil.rmtree(tmp, ignore_errors=True)
+
+    def judge(self, case, impl_res, coq_val):
+        if impl_res.get("outcome"):
+            return [Finding("impl_fault", f"implementation {impl_res['outcome']}", "hdd:split:" + impl_res["outcome"])]
+        if impl_res["open"] is not None:
+            return [Finding("impl_vs_spec", f"open failed on a well-formed split disk: {impl_res['open']}", "hdd:split:open")]
+        fs = []
+        if impl_res["size"] != case["total"] * 512:
+            fs.append(Finding("impl_vs_spec", f"size {impl_res['size']} != {case['total'] * 512}", "hdd:split:size"))
+        exp = self.expected(case)
+        for (a, b), r in zip(case["reqs"], impl_res["reqs"]):
+            io = outcome_of(r)
+            label = f"bytes({a},{b})"
+            if io[0] == "ok":
+                if io[1] != exp[a:a + b]:
+                    dd = core.first_diff(io[1], exp[a:a + b])
+                    fs.append(Finding("impl_vs_spec", f"{label}: bytes differ from the per-storage overlay at +{dd} "
+                                      f"(sector {(a + dd) // 512})", "hdd:split:bytes"))
+            elif io[0] == "exc":
+                fs.append(Finding("impl_vs_spec", f"{label}: implementation raised {io[1]} at {io[2]}", f"hdd:split:exc:{io[1]}"))
+            else:
+                fs.append(Finding("impl_fault", f"{label}: {io[0]}", "hdd:split:" + io[0]))
+        return fs
+
+    def nontrivial(self, case, impl_res, coq_val):
+        return core.sha(core.jdump(case["reqs"]).encode() + str(case["guids"]).encode())
+
+    def dist(self, case):
+        return {"storages": len(case["storages"]), "depth": len(case["guids"])}
+
+    def describe(self, case):
+        return {"total": case["total"], "storages": [(st["nsect"], st["plain_base"]) for st in case["storages"]],
+                "reqs": case["reqs"]}
+
+
+SUITES["hdd_split"] = HddSplit()
+
